@@ -96,6 +96,11 @@ func c17One(c *core.Ctx, cs srcCase) {
 		blame := c17Blame(ref.Root, out, r2)
 		if mixed != "" {
 			blame = mixed
+			// the recorded symptom is about text in front of the first open tag (inline HTML or a shebang line at the start of
+			// the file gets an open tag of its own); a program that starts in PHP mode is not part of it
+			if strings.Contains(mixed, "leaves PHP mode") && bytes.HasPrefix(cs.Src, []byte("<?")) {
+				blame = "a program that starts with an open tag and leaves PHP mode later: " + c17Blame(ref.Root, out, r2)
+			}
 		}
 		c.Report("formatted text does not parse ("+fam+"): "+blame, mkWhat("%q => %q: %s", cs.Src, out, errList(r2.Errs)), cs)
 		return
